@@ -632,6 +632,8 @@ def run(ctx):
     ctx.obligation("corr:dropout", n_ddis == 0, f"{n_ddis} cases disagree")
     ctx.obligation("oracles:dropout", n_dfail == 0, f"{n_dfail} oracle failures")
 
+    import extra_oracles as _xo
+    _xo.module_instance_independence(ctx, "C13")
     ctx.notes["rule"] = (
         "BatchNorm: history i uses option combination i mod 32 (affine, reduce, instance, include_bias, normalization), "
         "a layout from a fixed pool (repeated irreps, no even scalars, odd scalars, zero multiplicities, empty), eps/momentum "
